@@ -311,3 +311,37 @@ Proof.
     destruct (IH st st' Ew) as [E1 E2]. subst st'. split; [reflexivity|].
     intros w0 [Hw|Hw]; [subst; exists vn; exact Et|apply E2; exact Hw].
 Qed.
+
+(* progress of a wake-up round (C12): if some waiter would be granted when evaluated in the state right after the
+   notification, the round grants at least one waiter (possibly another one that came first) *)
+Theorem wake_round_progress ws st st' g w s1 vn :
+  wake_round st ws = Ok (st', g) -> In w ws -> try_waiter st w = Ok (s1, vn, true) -> g <> [].
+Proof.
+  intros Hr Hw Ht Hg. subst g. destruct (wake_round_quiescent ws st st' Hr) as [_ Hq].
+  destruct (Hq w Hw) as (vn' & E). rewrite E in Ht. discriminate.
+Qed.
+
+(* every job reported as granted by a round is allocated (fireable) right after its evaluation *)
+Lemma wake_round_granted_in ws : forall st st' g,
+  wake_round st ws = Ok (st', g) -> forall j, In j g -> exists w, In w ws /\ w_job w = j.
+Proof.
+  induction ws as [|w ws IH]; simpl; intros st st' g H j Hj.
+  - inversion H. subst. contradiction.
+  - destruct (try_waiter st w) as [[[s vn] al]|]; simpl in H; [|discriminate].
+    destruct (wake_round s ws) as [[s2 g2]|] eqn:Ew; simpl in H; [|discriminate]. inversion H. subst.
+    destruct al; simpl in Hj.
+    + destruct Hj as [Hj|Hj]; [exists w; auto|]. destruct (IH _ _ _ Ew j Hj) as (w0 & H1 & H2). exists w0. auto.
+    + destruct (IH _ _ _ Ew j Hj) as (w0 & H1 & H2). exists w0. auto.
+Qed.
+
+Theorem wake_round_progress_exact ws st st' g w v s1 :
+  wake_round st ws = Ok (st', g) -> In w ws ->
+  valid_locations st (w_reqs w) (w_job w) (w_cands w) = Ok v -> length v = w_n w -> w_n w <> 0%nat ->
+  allocate st (w_job w) (w_reqs w) v = Ok s1 -> g <> [].
+Proof.
+  intros Hr Hw Hv Hl Hn Ha.
+  destruct (attempt_grants_when_exact st (w_job w) (w_cands w) (w_reqs w) (w_n w) (w_chosen w) v Hv Hl Hn)
+    as [(s' & E & _)|(e & _ & E)].
+  - eapply wake_round_progress; eauto.
+  - rewrite Ha in E. discriminate.
+Qed.
